@@ -165,8 +165,39 @@ def rule_enq(ctx):
     src = unparse(eq)
     cls = repo.cls(SEND, "AxolotlSendLayer")
     mx = alts(Evaluator(repo, cls.module, cls).class_const(cls, "MAX_SENT_QUEUE"))
-    ok = "len(self.sentQueue) >= self.__class__.MAX_SENT_QUEUE" in src and "self.sentQueue.pop(0)" in src and "self.sentQueue.append(node)" in src and mx and mx[0] >= 100
-    ctx.check("C03.enq", bool(ok), where(SEND, "AxolotlSendLayer.enqueueSent", eq.lineno), "bounded queue, drop-oldest, MAX=%s" % (mx[0] if mx else "?"), "the sent queue must be bounded (>= 100) and drop its oldest entry when full", "bounded, oldest dropped")
+    # bounded queue with drop-oldest, by abstract execution of enqueueSent on a queue that holds MAX-1 and MAX entries:
+    # afterwards the queue holds min(n + 1, MAX) entries, the new one last, the survivors in their order, and - when it
+    # was full - exactly the oldest one is gone
+    weq = where(SEND, "AxolotlSendLayer.enqueueSent", eq.lineno)
+    if not mx or len(mx) != 1 or not isinstance(mx[0], int):
+        ctx.undecided("C03.enq", weq, "bounded queue, drop-oldest", "MAX_SENT_QUEUE is not a constant")
+    else:
+        M = mx[0]
+        bad = []
+        for n in sorted({max(M - 1, 0), M}):
+            it, layer, cls_ = mk_layer(repo, SEND, "AxolotlSendLayer", {}, {})
+            old_items = [("c", "old-%d" % i) for i in range(n)]
+            q = ("list", list(old_items))
+            layer[1].fields["sentQueue"] = q
+            new_item = ("c", "new")
+            try:
+                it.method_call(layer, "enqueueSent", [new_item], {}, {"@module": cls_.module, "@owner": cls_}, 0, None)
+            except (_Raise, Budget) as x:
+                bad.append("enqueueSent on a queue of %d raises / is not followed (%s)" % (n, type(x).__name__))
+                continue
+            got = layer[1].fields.get("sentQueue")
+            if not (got and got[0] == "list" and not (len(got) > 2 and got[2])) or it.notes:
+                bad = None
+                break
+            want = (old_items + [new_item])[-M:] if M > 0 else []
+            if got[1] != want:
+                bad.append("a queue of %d entries holds %d afterwards (%s)" % (n, len(got[1]),
+                           "the oldest entry is kept and another dropped" if len(got[1]) == len(want) else "expected %d, newest last, oldest dropped" % len(want)))
+        if bad is None:
+            ctx.undecided("C03.enq", weq, "bounded queue, drop-oldest, MAX=%s" % M, "enqueueSent could not be followed by the interpreter")
+        else:
+            ctx.check("C03.enq", not bad and M >= 100, weq, "bounded queue, drop-oldest, MAX=%s" % M,
+                      "the sent queue must be bounded (>= 100) and drop its oldest entry when full: " + ("; ".join(bad) if bad else "MAX_SENT_QUEUE is %d" % M), "bounded, oldest dropped")
     rule_requeue(ctx)
 
 
@@ -502,34 +533,139 @@ def rule_skdm(ctx):
             ctx.hold("C03.skdm", w, "payload consulted before every delivery", "%d delivering cell(s), all after looking at the payload" % d["consulted"])
 
 
+def _mgr_run(repo, cls, name, args, cipher=None, hooks_extra=None):
+    """abstract execution of one AxolotlManager method: the session / group cipher is an opaque object whose methods
+    return an opaque value or raise a library exception (`cipher`: {"raise": name} or {}), `_unpad` and
+    `_generate_random_padding` are observed.  -> (outcome, value, log)"""
+    log = {"unpad": [], "cipher": []}
+    PLAIN = ("ext", "PLAINTEXT", [])
+
+    def get_cipher(it, fn, owner, self_val, a, k):
+        return ("ext", "cipher", [])
+
+    def unpad(it, fn, owner, self_val, a, k):
+        log["unpad"].append(a[0] if a else None)
+        return ("fn", "unpadded", [a[0]] if a else [])
+
+    def pad(it, fn, owner, self_val, a, k):
+        return ("ext", "PADDING", [])
+
+    def cipher_call(mname):
+        def h(it, recv, a, k, env, depth, e):
+            log["cipher"].append((mname, list(a)))
+            if cipher and cipher.get("raise"):
+                raise _Raise(("ext", cipher["raise"], []), "library raises " + cipher["raise"])
+            return PLAIN if mname.startswith("decrypt") else ("fn", "ciphertext", list(a))
+        return h
+    hooks = {"fn:_get_session_cipher": get_cipher, "fn:_get_group_cipher": get_cipher, "fn:_unpad": unpad, "fn:_generate_random_padding": pad}
+    for m in ("decryptMsg", "decryptPkmsg", "decrypt", "encrypt"):
+        hooks["ext:cipher." + m] = cipher_call(m)
+    hooks.update(hooks_extra or {})
+    it = Interp(repo, {}, {}, hooks=hooks)
+    from ..absint import Obj
+    o = Obj(cls)
+    o.fields["_username"] = ("c", "me")
+    try:
+        v = it.method_call(("obj", o), name, args, {}, {"@module": cls.module, "@owner": cls}, 0, None)
+    except _Raise as r:
+        return "raise", r.exc, log
+    except Budget:
+        return "budget", None, log
+    return "ret", v, log
+
+
 def rule_map(ctx):
+    """the manager's decrypt / encrypt entry points by abstract execution (cipher opaque): each library exception a
+    method catches comes out as the layer's namesake exception; the decrypted payload is returned unpadded (when asked
+    to); the payload handed to the cipher on the way out is message + padding; the padding scheme is its own inverse."""
     repo = ctx.repo
     cls = repo.cls(MGR, "AxolotlManager")
+    MSG = ("ext", "MSG", [])
+    PLAIN = ("ext", "PLAINTEXT", [])
+
+    def caught_names(fn, depth=2):
+        out = []
+        for x in ast.walk(fn):
+            if isinstance(x, ast.ExceptHandler) and x.type is not None:
+                ts = x.type.elts if isinstance(x.type, ast.Tuple) else [x.type]
+                out += [unparse(t).split(".")[-1] for t in ts]
+            if depth and isinstance(x, ast.Call) and is_self_attr(x.func) and x.func.attr in cls.methods and x.func.attr != fn.name:
+                out += caught_names(cls.methods[x.func.attr], depth - 1)
+        return out
     for name in ("decrypt_pkmsg", "decrypt_msg", "group_decrypt"):
         fn = cls.methods[name]
         w = where(MGR, "AxolotlManager." + name, fn.lineno)
+        nparams = len(fn.args.args) - 1
+        base_args = [("c", "peer"), ("c", "peer2"), ("ext", "DATA", [])][:nparams] if name == "group_decrypt" else [("c", "peer"), ("ext", "DATA", [])]
         bad = []
-        n = 0
-        for h in [x for x in ast.walk(fn) if isinstance(x, ast.ExceptHandler)]:
-            n += 1
-            caught = unparse(h.type) if h.type is not None else ""
-            raised = [unparse(s.exc) for s in h.body if isinstance(s, ast.Raise) and s.exc is not None]
-            if raised != ["exceptions.%s()" % caught]:
-                bad.append("%s -> %s" % (caught, raised))
-        ctx.check("C03.map", n >= 3 and not bad, w, "library exceptions mapped by name (%d)" % n, "a library exception is mapped to a different (or no) layer exception: %s (the wrong failure branch would run)" % bad, "each caught exception re-raised as its namesake")
-        if name != "group_decrypt":
-            ok = any(isinstance(r, ast.Return) and isinstance(r.value, ast.IfExp) and unparse(r.value.test) == "unpad" and "self._unpad(plaintext)" in unparse(r.value.body) for r in ast.walk(fn))
-        else:
-            ok = "plaintext = self._unpad(plaintext)" in unparse(fn)
-        ctx.check("C03.map", ok, w, "padding stripped", "the random padding must be stripped from the decrypted payload", "unpadded")
+        names = [n for n in dict.fromkeys(caught_names(fn)) if n.endswith("Exception") and n not in ("Exception", "BaseException")]
+        for exc in names:
+            args = list(base_args) + ([("c", True)] if name != "group_decrypt" else [])
+            out, v, log = _mgr_run(repo, cls, name, args, {"raise": exc})
+            got = None
+            if out == "raise":
+                if v[0] == "obj" and v[1].cls is not None:
+                    got = v[1].cls.module.name + "." + v[1].cls.name
+                elif v[0] in ("ext", "fn"):
+                    got = v[1]
+                if v[0] == "fn" and ("ext", "module yowsup.axolotl.exceptions", []) in v[2]:
+                    got = "yowsup.axolotl.exceptions." + v[1]
+            if got != "yowsup.axolotl.exceptions." + exc:
+                bad.append("%s -> %s" % (exc, got if out == "raise" else out))
+        ctx.check("C03.map", len(names) >= 3 and not bad, w, "library exceptions mapped by name (%d)" % len(names),
+                  "a library exception is mapped to a different (or no) layer exception: %s (the wrong failure branch would run)" % bad, "each caught exception re-raised as its namesake")
+        # padding stripped
+        oks = []
+        for unpad in ((True, False) if name != "group_decrypt" else (True,)):
+            args = list(base_args) + ([("c", unpad)] if name != "group_decrypt" else [])
+            out, v, log = _mgr_run(repo, cls, name, args)
+            if unpad:
+                oks.append(out == "ret" and v == ("fn", "unpadded", [PLAIN]) and len(log["unpad"]) == 1)
+            else:
+                oks.append(out == "ret" and v == PLAIN and not log["unpad"])
+        ctx.check("C03.map", all(oks), w, "padding stripped", "the random padding must be stripped from the decrypted payload (exactly once, and only when the caller asks for it)", "unpadded")
     enc = cls.methods["encrypt"]
-    genc = cls.methods["group_encrypt"]
-    ok = "message + self._generate_random_padding()" in unparse(enc) and "message + self._generate_random_padding()" in unparse(genc)
-    ctx.check("C03.map", ok, where(MGR, "AxolotlManager.encrypt", enc.lineno), "padding added on both encrypt paths", "the payload must be padded before encryption (the receiver strips it)", "padded on encrypt")
+    oks = []
+    for name in ("encrypt", "group_encrypt"):
+        out, v, log = _mgr_run(repo, cls, name, [("c", "peer"), MSG])
+        sent = [a for m, a in log["cipher"] if m == "encrypt"]
+        oks.append(out == "ret" and len(sent) == 1 and len(sent[0]) == 1 and sent[0][0] == ("fn", "Add", [MSG, ("ext", "PADDING", [])]) and v == ("fn", "ciphertext", sent[0]))
+    ctx.check("C03.map", all(oks), where(MGR, "AxolotlManager.encrypt", enc.lineno), "padding added on both encrypt paths", "the payload must be padded before encryption (the receiver strips it)", "padded on encrypt")
+    # the padding scheme: n bytes of value n for n in 1..255, stripped again by _unpad - evaluated for every n
     up = cls.methods["_unpad"]
     gp = cls.methods["_generate_random_padding"]
-    ok = "data[:-padding]" in unparse(up) and "[num] * num" in unparse(gp) and "randint(1, 255)" in unparse(gp)
-    ctx.check("C03.map", ok, where(MGR, "AxolotlManager._unpad", up.lineno), "pad = n bytes of value n (1..255); unpad strips data[-1] bytes", "padding and unpadding must be inverse", "inverse padding scheme")
+    wup = where(MGR, "AxolotlManager._unpad", up.lineno)
+    ranges, bad, unknown = set(), [], None
+    for n in range(1, 256):
+        def randint(it, recv, a, k, env, depth, e, n=n):
+            if len(a) == 2 and a[0][0] == "c" and a[1][0] == "c":
+                ranges.add((a[0][1], a[1][1]))
+            return ("c", n)
+        it = Interp(repo, {}, {}, hooks={"ext:random.randint": randint})
+        from ..absint import Obj
+        o = ("obj", Obj(cls))
+        try:
+            padv = it.call_function(gp, cls, o, [], {}, depth=0)
+            if padv[0] != "c" or not isinstance(padv[1], (bytes, bytearray)):
+                unknown = "padding for n=%d is %s" % (n, show(padv)[:40])
+                break
+            if bytes(padv[1]) != bytes([n]) * n:
+                bad.append("padding for the random number %d is %d byte(s) of %s" % (n, len(padv[1]), sorted(set(padv[1]))[:3]))
+                continue
+            back = it.call_function(up, cls, o, [("c", b"payload" + bytes(padv[1]))], {}, depth=0)
+            if back[0] != "c":
+                unknown = "unpadded value for n=%d is %s" % (n, show(back)[:40])
+                break
+            if back[1] != b"payload":
+                bad.append("payload + %d padding byte(s) is unpadded to %d byte(s)" % (n, len(back[1])))
+        except (_Raise, Budget, NeedAtom) as x:
+            unknown = "n=%d: %s" % (n, x)
+            break
+    if unknown:
+        ctx.undecided("C03.map", wup, "pad = n bytes of value n (1..255); unpad strips data[-1] bytes", "padding scheme could not be evaluated: " + unknown)
+    else:
+        ctx.check("C03.map", not bad and ranges == {(1, 255)}, wup, "pad = n bytes of value n (1..255); unpad strips data[-1] bytes",
+                  "padding and unpadding must be inverse: " + ("; ".join(bad[:2]) if bad else "random range %s" % sorted(ranges)), "inverse padding scheme (255 lengths)")
 
 
 def run(ctx):
